@@ -8,7 +8,7 @@
      TABLE = ((#KEY #uncompressed) ...), KEY = codec byte followed by the compressed bytes, instantiates `decompress` (phase 2; trusted: cramjam)
      STRICT = 1: a bit-packed run must be present in full; 0: only the bytes of the values needed. *)
 From Coq Require Import NArith ZArith List String Ascii Bool.
-From Pq Require Import Base.Bytes Base.ListX Extract.Sx Thrift.Compact Codec.Hybrid Format.Phys Format.Meta Format.Page Format.File Format.Enc Impl.RPages Impl.RChunk Impl.WPagesFmt Impl.WLevels Impl.WChunk Impl.RSelf Impl.RCat.
+From Pq Require Import Base.Bytes Base.ListX Extract.Sx Thrift.Compact Codec.Hybrid Format.Phys Format.Meta Format.Page Format.File Format.Enc Impl.RPages Impl.RChunk Impl.WPagesFmt Impl.WLevels Impl.WChunk Impl.RSelf Impl.RCat Impl.RConvert.
 From Pq Require Extract.Cmd_Thrift.
 Import ListNotations.
 Open Scope string_scope.
@@ -311,6 +311,60 @@ Definition h_fmt_rd_chunk_cat (a : list sx) : sx :=
   | _ => err "arity"
   end.
 
+(* the logical level (Impl/RConvert.v): model of converted_types.convert on each value, the column cast, its reading
+   as a logical value, and the specification's logical value
+     (fmt_convert TYPE TLEN CONV LUNIT SCALE (VALUE ...)) -> (ok ((CVAL COLUMN-CVAL DENOTED SPEC) ...))
+        CONV = () | (n)     LUNIT = () | (0|1|2) for ms|us|ns
+        CVAL = (int SIGNED W PATTERN) | (dt UNIT PATTERN) | (td UNIT PATTERN) | (dec UNSCALED SCALE) | (str #b) | (raw VALUE) | (bad why) | (uns why)
+        DENOTED, SPEC = () | (lint z) | (ldate d) | (ltime UNIT t) | (lts UNIT t) | (ldec unscaled scale) | (lstr #b) | (lphys VALUE)
+        SPEC is what pandas shows of the specified value (pandas_of (logical_of ...)) *)
+Definition s_unit (u : tunit) : sx := SZ (match u with TMs => 0 | TUs => 1 | TNs => 2 end)%Z.
+Definition as_unit (s : sx) : option tunit :=
+  match s with SZ 0%Z => Some TMs | SZ 1%Z => Some TUs | SZ 2%Z => Some TNs | _ => None end.
+Definition s_cval (c : cval) : sx :=
+  match c with
+  | CInt sg w p => SL [S_ "int"; sbool sg; SZ w; sN p]
+  | CDatetime u p => SL [S_ "dt"; s_unit u; sN p]
+  | CTimedelta u p => SL [S_ "td"; s_unit u; sN p]
+  | CDecimal a sc => SL [S_ "dec"; SZ a; SZ sc]
+  | CStr b => SL [S_ "str"; SB b]
+  | CRaw v => SL [S_ "raw"; s_cell (Some v)]
+  end.
+Definition s_lval (l : option lval) : sx :=
+  match l with
+  | None => SL []
+  | Some (LInt z) => SL [S_ "lint"; SZ z]
+  | Some (LDate d) => SL [S_ "ldate"; SZ d]
+  | Some (LTime u t) => SL [S_ "ltime"; s_unit u; SZ t]
+  | Some (LTimestamp u t) => SL [S_ "lts"; s_unit u; SZ t]
+  | Some (LDecimal a sc) => SL [S_ "ldec"; SZ a; SZ sc]
+  | Some (LString b) => SL [S_ "lstr"; SB b]
+  | Some (LPhys v) => SL [S_ "lphys"; s_cell (Some v)]
+  end.
+Definition as_opt {A} (f : sx -> option A) (s : sx) : option (option A) :=
+  match s with SL [] => Some None | SL [x] => option_map Some (f x) | _ => None end.
+
+Definition h_fmt_convert (a : list sx) : sx :=
+  match a with
+  | [ty; tl; cv; lu; sc; vals] =>
+    match as_Z ty, as_N tl, as_opt as_Z cv, as_opt as_unit lu, as_Z sc, Sx.as_list_of as_value vals with
+    | Some ty, Some tl, Some cv, Some lu, Some sc, Some vals =>
+      match ptype_of_id ty with
+      | Some pt =>
+        SL [S_ "ok"; slist (fun v =>
+              match convert_model pt cv lu sc v with
+              | ROk c => SL [s_cval c; s_cval (column_of cv c); s_lval (denote (column_of cv c));
+                             s_lval (option_map pandas_of (logical_of pt cv lu sc v))]
+              | RBad w => SL [SL [S_ "bad"; S_ w]; SL []; SL []; s_lval (option_map pandas_of (logical_of pt cv lu sc v))]
+              | RUns w => SL [SL [S_ "uns"; S_ w]; SL []; SL []; s_lval (option_map pandas_of (logical_of pt cv lu sc v))]
+              end) vals]
+      | None => err "args"
+      end
+    | _, _, _, _, _, _ => err "args"
+    end
+  | _ => err "arity"
+  end.
+
 Definition table : list (string * handler) :=
-  [("fmt_rd_chunk_cat", h_fmt_rd_chunk_cat); ("fmt_w_chunk", h_fmt_w_chunk); ("fmt_rd_chunk_sm", h_fmt_rd_chunk_sm); ("fmt_fp_page", h_fmt_fp_page); ("fmt_rd_chunk", h_fmt_rd_chunk); ("fmt_rd_data_page", h_fmt_rd_data_page); ("fmt_pages", h_fmt_pages); ("fmt_validate", h_fmt_validate); ("fmt_decode", h_fmt_decode);
+  [("fmt_convert", h_fmt_convert); ("fmt_rd_chunk_cat", h_fmt_rd_chunk_cat); ("fmt_w_chunk", h_fmt_w_chunk); ("fmt_rd_chunk_sm", h_fmt_rd_chunk_sm); ("fmt_fp_page", h_fmt_fp_page); ("fmt_rd_chunk", h_fmt_rd_chunk); ("fmt_rd_data_page", h_fmt_rd_data_page); ("fmt_pages", h_fmt_pages); ("fmt_validate", h_fmt_validate); ("fmt_decode", h_fmt_decode);
    ("fmt_payloads", h_fmt_payloads); ("fmt_encode", h_fmt_encode); ("fmt_table", h_fmt_table)].
